@@ -412,11 +412,27 @@ def c09(run, args):
             cfgs = mem_cfgs if st == "mem" else file_cfgs
             cap, maxkb = cfgs[k % len(cfgs)]
             fresh = [[{"op": "add", "mb": 1, "meta": 1, "size": 600}] + ([{"op": rng.choice(["list", "latest"]), "mb": 1, "id": 1}] if j == 0 else [{"op": "add", "mb": 1, "meta": 1, "size": 600}])
-                     for j in range(3 + k % 2)]
+                     for j in range(4 + k % 2)]
             behaviours.append({"id": "first-%d-%s-c%dk%d" % (k, st, cap, maxkb), "store": st, "cap": cap, "maxkb": maxkb, "names": sets[k % len(sets)],
                                "pre": [p_ for p_ in pre if p_["mb"] == 0], "threads": fresh, "repeat": 60})
+        # bursts: 8 deliveries at once to a mailbox that does not exist yet, many times (judged on the outcome, no search needed)
+        for k in range(4):
+            st = ["mem", "file"][k % 2]
+            behaviours.append({"id": "burst-%d-%s" % (k, st), "store": st, "cap": 0, "maxkb": 0, "names": sets[k % len(sets)], "pre": [], "threads": [],
+                               "burst": 8, "repeat": (3000 if st == "mem" else 300) * (1 if quick else 4)})
         run.cov["samples"] = [behaviours[0]["threads"], behaviours[-1]["threads"]]
     names = sorted({n for b in behaviours for n in b["names"]})
+    # bursts also run without the race detector (more parallelism in the window between lookup and creation)
+    if not args.replay:
+        vh = run.build_harness()
+        btf = run.harness_parallel(vh, "conc", [dict(b, id=b["id"] + "-norace") for b in behaviours if b.get("burst")], "c09burst", procs=4)
+        bres = run.validate("LinTrace", LIN_CFG % dict(mbs=tla_set(names)), btf, max_rej=2)
+        for r in bres["rejections"]:
+            ev = r["rejected_event"]
+            run.violation("C09 concurrent use: %d simultaneous first deliveries to a new mailbox: results %s but the mailbox holds %s" % (
+                len(ev.get("adds", [])), [(a["r"], a["id"]) for a in ev.get("adds", [])], [[m["id"] for m in x["msgs"]] for x in ev.get("s", []) if x["mb"] == ev.get("mb")]),
+                {"behaviour": {"id": str(r["trace"]).split("#")[0], "burst": 8, "store": "mem" if "mem" in str(r["trace"]) else "file", "cap": 0, "maxkb": 0,
+                               "names": behaviours[0]["names"], "pre": [], "threads": [], "repeat": 3000}, "rejection": r, "replay_kind": "conc"})
     crashes = []
     tf = run.harness_parallel(vhr, "conc", behaviours, "c09", procs=12, crashes=crashes)
     byid = {b["id"]: b for b in behaviours}
